@@ -1,0 +1,9 @@
+// +build verif
+
+// Verification hooks (build tag `verif` only).
+
+package evm
+
+// VerifSetValidateRoutines sets the number of signature-validating routines of the parallel
+// verifier (in production it is runtime.NumCPU()).
+func VerifSetValidateRoutines(n int) { validateRoutineCount = n }
